@@ -86,6 +86,7 @@ static int updaters_registered;
 static int sig_reader;			/* chaos signals whose handler runs a read section */
 static int tight;
 static const char *cfgname;
+static int g_sig_all;
 
 static int stop_readers;
 static volatile int updaters_done;
@@ -210,7 +211,7 @@ static void *reader_main(void *arg)
 	vp_pin(t->idx);
 	struct vp_thr *vt = vp_self();
 	reader_register(t);
-	if (sig_reader)
+	if (sig_reader || g_sig_all)
 		vp_chaos_register_self();
 	long done = 0;
 
@@ -311,13 +312,13 @@ static void *reader_main(void *arg)
 		if (churn) {
 			uint32_t x = vp_rand_n(&t->rng, 1000);
 			if (x >= 985) {
-				if (sig_reader)
+				if (sig_reader || g_sig_all)
 					vp_chaos_unregister_self();
 				reader_unregister(t);
 				if (x >= 997)
 					usleep(vp_rand_n(&t->rng, 2000));
 				reader_register(t);
-				if (sig_reader)
+				if (sig_reader || g_sig_all)
 					vp_chaos_register_self();
 				t->reg_cycles++;
 			}
@@ -326,7 +327,7 @@ static void *reader_main(void *arg)
 			vp_spin_cycles(vp_rand_n(&t->rng, 2000));
 	}
 #endif
-	if (sig_reader)
+	if (sig_reader || g_sig_all)
 		vp_chaos_unregister_self();
 	reader_unregister(t);
 	return NULL;
@@ -341,6 +342,8 @@ static void *updater_main(void *arg)
 	vp_pin(t->idx);
 	struct vp_thr *vt = vp_self();
 	int reg = updaters_registered && (t->idx & 1);
+	if (g_sig_all)
+		vp_chaos_register_self();
 	if (reg) {
 		rcu_register_thread();
 		VP_STORE(t->registered, 1);
@@ -387,6 +390,8 @@ static void *updater_main(void *arg)
 		VP_STORE(t->registered, 0);
 		rcu_unregister_thread();
 	}
+	if (g_sig_all)
+		vp_chaos_unregister_self();
 	__atomic_add_fetch(&updaters_done, 1, __ATOMIC_SEQ_CST);
 	return NULL;
 }
@@ -532,61 +537,91 @@ int main(int argc, char **argv)
 	for (int k = 0; k < NSLOTS; k++)
 		slots[k] = obj_new();
 
-	int reg_before = VP_PEEK(registry_count)();
-
-	int nthr = n_readers + n_updaters;
-	for (int i = 0; i < nthr; i++) {
-		struct thr *t = &thr[i];
-		t->idx = i;
-		t->role = i >= n_readers;
-		vp_rng_init(&t->rng, vp_opt.seed, 0x6770, i);
-		if (!t->role) {
-			t->capsec = 1 << 21;
-			t->secs = malloc(t->capsec * sizeof(struct sec));
-		} else {
-			t->capwait = (size_t) n_gp_per_updater + 1;
-			t->waits = malloc(t->capwait * sizeof(struct wait));
-		}
-	}
-	if (sig_reader)
-		vp_chaos_start(nthr, (uint32_t) vp_arg_long("sig-period-us", 40), handler_section);
+	int scenarios = (int) vp_arg_long("scenarios", 1);
+	int sig_all = (int) vp_arg_long("sig-all", 0);
+	int max_readers = n_readers, max_updaters = n_updaters;
+	struct vp_rng srng;
+	vp_rng_init(&srng, vp_opt.seed, 0x5ce9, 0);
+	g_sig_all = sig_all;
+	if (sig_reader || sig_all)
+		vp_chaos_start(max_readers + max_updaters, (uint32_t) vp_arg_long("sig-period-us", 40),
+			       sig_reader ? handler_section : NULL);
 	vp_watchdog_start((uint64_t) vp_arg_long("stall-ms", 20000), confirm_stuck);
 
-	for (int i = 0; i < nthr; i++)
-		pthread_create(&thr[i].tid, NULL, i < n_readers ? reader_main : updater_main, &thr[i]);
-	for (int i = n_readers; i < nthr; i++)
-		pthread_join(thr[i].tid, NULL);
-	VP_STORE(stop_readers, 1);
-	for (int i = 0; i < n_readers; i++)
-		pthread_join(thr[i].tid, NULL);
+	uint64_t calls = 0, rets = 0, val = 0, mp = 0, secs = 0, dropped = 0, regc = 0, offc = 0, hs = 0;
+	for (int sc = 0; sc < scenarios; sc++) {
+		if (scenarios > 1) {
+			/* bounded scenario: random shape, every reader terminates */
+			n_readers = 1 + (int) vp_rand_n(&srng, (uint32_t) max_readers);
+			n_updaters = 1 + (int) vp_rand_n(&srng, (uint32_t) max_updaters);
+		}
+		int reg_before = VP_PEEK(registry_count)();
+		int nthr = n_readers + n_updaters;
+		VP_STORE(stop_readers, 0);
+		for (int i = 0; i < nthr; i++) {
+			struct thr *t = &thr[i];
+			struct sec *osecs = t->secs;
+			struct wait *owaits = t->waits;
+			size_t ocs = t->capsec, ocw = t->capwait;
+			memset(t, 0, sizeof(*t));
+			t->secs = osecs; t->capsec = ocs;
+			t->waits = owaits; t->capwait = ocw;
+			t->idx = i;
+			t->role = i >= n_readers;
+			vp_rng_init(&t->rng, vp_opt.seed, 0x6770 + (uint64_t) sc, (uint64_t) i);
+			if (!t->role && !t->secs) {
+				t->capsec = scenarios > 1 ? (1 << 16) : (1 << 21);
+				t->secs = malloc(t->capsec * sizeof(struct sec));
+			}
+			if (t->role && (!t->waits || t->capwait < (size_t) n_gp_per_updater + 1)) {
+				free(t->waits);
+				t->capwait = (size_t) n_gp_per_updater + 1;
+				t->waits = malloc(t->capwait * sizeof(struct wait));
+			}
+			if (!t->role && t->waits) { free(t->waits); t->waits = NULL; t->capwait = 0; }
+			if (t->role && t->secs) { free(t->secs); t->secs = NULL; t->capsec = 0; }
+		}
+		for (int i = 0; i < nthr; i++)
+			pthread_create(&thr[i].tid, NULL, i < n_readers ? reader_main : updater_main, &thr[i]);
+		for (int i = n_readers; i < nthr; i++)
+			pthread_join(thr[i].tid, NULL);
+		VP_STORE(stop_readers, 1);
+		for (int i = 0; i < n_readers; i++)
+			pthread_join(thr[i].tid, NULL);
+
+		/* quiescence checks */
+		uint64_t sc_calls = 0, sc_rets = 0;
+		for (int i = 0; i < nthr; i++) {
+			sc_calls += thr[i].calls;
+			sc_rets += thr[i].returns;
+			val += thr[i].validations;
+			mp += thr[i].mp_checks;
+			secs += thr[i].sec_total;
+			dropped += thr[i].sec_dropped;
+			regc += thr[i].reg_cycles;
+			offc += thr[i].offline_cycles;
+			hs += thr[i].handler_sections;
+		}
+		calls += sc_calls;
+		rets += sc_rets;
+		if (sc_calls != sc_rets)
+			vp_violation("gp-call-never-returned", "cfg=%s %llu calls, %llu returns", cfgname,
+				     (unsigned long long) sc_calls, (unsigned long long) sc_rets);
+		int reg_after = VP_PEEK(registry_count)();
+		if (reg_after != reg_before)
+			vp_violation("registry-census-mismatch",
+				     "cfg=%s registry holds %d entries after all workers unregistered, %d before they started",
+				     cfgname, reg_after, reg_before);
+		check_intervals();
+		if (vp_nviolations())
+			break;
+	}
 	vp_chaos_stop();
 	vp_watchdog_stop();
-
-	/* quiescence checks */
-	uint64_t calls = 0, rets = 0, val = 0, mp = 0, secs = 0, dropped = 0, regc = 0, offc = 0, hs = 0;
-	for (int i = 0; i < nthr; i++) {
-		calls += thr[i].calls;
-		rets += thr[i].returns;
-		val += thr[i].validations;
-		mp += thr[i].mp_checks;
-		secs += thr[i].sec_total;
-		dropped += thr[i].sec_dropped;
-		regc += thr[i].reg_cycles;
-		offc += thr[i].offline_cycles;
-		hs += thr[i].handler_sections;
-	}
-	if (calls != rets)
-		vp_violation("gp-call-never-returned", "cfg=%s %llu calls, %llu returns", cfgname,
-			     (unsigned long long) calls, (unsigned long long) rets);
-	int reg_after = VP_PEEK(registry_count)();
-	if (reg_after != reg_before)
-		vp_violation("registry-census-mismatch",
-			     "cfg=%s registry holds %d entries after all workers unregistered, %d before they started",
-			     cfgname, reg_after, reg_before);
-	check_intervals();
 #if !(VP_ASAN || VP_TSAN)
 	vp_quar_drain(&quar);
 #endif
+	vp_counter_add("scenarios", (uint64_t) scenarios);
 	vp_counter_add("gp_calls", calls);
 	vp_counter_add("reader_sections", secs);
 	vp_counter_add("reader_sections_logged_dropped", dropped);
